@@ -220,12 +220,13 @@ def history_plan(tier, primary, n):
     anymp = lambda mp: True
     bounded = lambda mp: mp is not None and mp < n
     notfull = lambda mp: mp is None or mp < n
-    mid = lambda mp: mp is not None and 1 < mp < n
+    mid = lambda mp: mp == 2
+    bounded_or_none = lambda mp: mp is None or (mp is not None and mp < n)
     if tier == 'quick':
         if primary:
             return {1: [('full', 1, anymp), ('full', 2, anymp), ('small', 3, anymp), ('small', 4, anymp)],
                     2: [('full', 1, anymp), ('full', 2, anymp), ('medium', 3, notfull), ('small', 4, notfull), ('loc', 5, anymp)],
-                    3: [('full', 1, anymp), ('full', 2, anymp), ('medium', 3, notfull), ('small', 4, bounded), ('loc', 5, anymp)],
+                    3: [('full', 1, anymp), ('full', 2, anymp), ('medium', 3, bounded), ('small', 3, anymp), ('small', 4, bounded), ('loc', 5, anymp)],
                     4: [('full', 1, anymp), ('full', 2, anymp), ('small', 3, anymp), ('loc', 4, anymp), ('loc', 5, mid)]}[n]
         return [('full', 1, anymp), ('medium', 2, anymp), ('loc', 3, anymp)] if n <= 3 else [('full', 1, anymp)]
     if primary:
